@@ -93,9 +93,9 @@ def legal (dist : Nat → Nat) (tbf ogf choice : List Entry) : Bool :=
     (decide (maxParallelFetch ≤ ogf.length + choice.length) &&
      choice.all (fun c => decide (dist c.key ≤ dist e.key))))
 
-/-- `next_keys_to_fetch`. (The source's early return on an empty `to_be_fetched` is subsumed: with an empty
-queue the only legal batch is the empty one and the state is unchanged.) -/
-def nextKeys (dist : Nat → Nat) (s : State) (choice : List Entry) : State × Out :=
+/-- `next_keys_to_fetch` from the pruning call on. (The source's early return on an empty `to_be_fetched` *after*
+pruning is subsumed: with an empty queue the only legal batch is the empty one and the state is unchanged.) -/
+def nextKeysCore (dist : Nat → Nat) (s : State) (choice : List Entry) : State × Out :=
   let (s1, failed) := prune s
   if maxParallelFetch ≤ s1.ogf.length then
     (s1, { failed := failed, illegal := !choice.isEmpty })
@@ -106,6 +106,14 @@ def nextKeys (dist : Nat → Nat) (s : State) (choice : List Entry) : State × O
      { ret := sched, failed := failed })
   else
     (s1, { failed := failed, illegal := true })
+
+/-- `next_keys_to_fetch`. The generated flag says whether `prune_expired_keys_and_slow_nodes` runs before the
+empty-queue early return (as it does today); were the early return to come first, an empty queue would skip the
+pruning — timed-out fetches would stay in flight and their holders unreported. -/
+def nextKeys (dist : Nat → Nat) (s : State) (choice : List Entry) : State × Out :=
+  if !pruneBeforeEmptyQueueReturn && s.tbf.isEmpty then
+    (s, { illegal := !choice.isEmpty })
+  else nextKeysCore dist s choice
 
 /-- insertion of the in-range new keys: `entry(..).or_insert(now + PENDING_TIMEOUT)` -/
 def insertPending (now h : Nat) (tbf : List Entry) (new : List (Nat × Nat)) : List Entry :=
